@@ -728,6 +728,7 @@ func runRetry(t *testing.T, c *Case) (o outcome) {
 }
 
 func runCase(t *testing.T, c *Case) outcome {
+	compkit.Journal(c)
 	if os.Getenv("VERIF_TRACE") != "" {
 		b, _ := json.Marshal(c)
 		fmt.Fprintf(os.Stderr, "CASE %s\n", b)
